@@ -496,3 +496,80 @@ func specHealthyStateC15(opIdx int, s InstanceState) bool {
 	}
 	return true
 }
+
+func init() { vfRegisterBubble("HarnessC15_Startup", HarnessC15_Startup) }
+
+// HarnessC15_Startup: the lifecycler's start-up (create or wait for the
+// partition, then register as owner) on the virtual clock: the owner is stamped
+// with the instant of its registration - not with an earlier one taken before
+// waiting - so a pending partition is not promoted before the owner has been
+// registered for the configured duration.
+func HarnessC15_Startup() {
+	now0 := vfEpoch + 1000
+	vfSetNow(now0)
+	create := vfChoice("create_on_startup", 2) == 1
+	desc := NewPartitionRingDesc()
+	preexisting := create && vfChoice("partition_exists", 2) == 1
+	if preexisting {
+		desc.Partitions[0] = PartitionDesc{Id: 0, Tokens: []uint32{5}, State: vfPartState("pstate"), StateTimestamp: now0 - 500}
+	}
+	store := &vfKV{val: desc}
+	cfg := PartitionInstanceLifecyclerConfig{PartitionID: 0, InstanceID: "o0", WaitOwnersCountOnPending: 1,
+		WaitOwnersDurationOnPending: 10 * time.Second, DeleteInactivePartitionAfterDuration: 0, PollingInterval: 2 * time.Second}
+	l := NewPartitionInstanceLifecycler(cfg, "r", "k", store, log.NewNopLogger(), nil)
+	l.SetCreatePartitionOnStartup(create)
+	ctx, cancel := context.WithCancel(context.Background())
+	done := make(chan error, 1)
+	go func() { done <- l.starting(ctx) }()
+	vfQuiesce()
+	waited := int64(0)
+	if !create {
+		select {
+		case <-done:
+			vfAssert(false, "C15 without create-on-startup the lifecycler waits for the partition")
+		default:
+		}
+		// somebody else creates the partition later
+		k := 1 + vfChoice("wait_polls", 3)
+		vfAdvance(time.Duration(k) * 5 * time.Second)
+		waited = int64(k) * 5
+		vfQuiesce()
+		d := store.val.(*PartitionRingDesc)
+		d.Partitions[0] = PartitionDesc{Id: 0, Tokens: []uint32{5}, State: PartitionPending, StateTimestamp: now0 + waited}
+		vfAdvance(2300 * time.Millisecond)
+		// the next poll (every 2 s from start-up) after the creation finds the partition
+		waited = (waited/2 + 1) * 2
+		vfQuiesce()
+	}
+	select {
+	case err := <-done:
+		vfAssert(err == nil, "C15 start-up succeeds")
+	default:
+		vfAssert(false, "C15 start-up ends once the partition exists")
+	}
+	d := store.val.(*PartitionRingDesc)
+	o, ok := d.Owners["o0"]
+	vfAssert(ok && o.OwnedPartition == 0 && o.State == OwnerActive, "C15 start-up registers the instance as owner of its partition")
+	regAt := now0 + waited
+	vfAssert(o.UpdatedTimestamp == regAt, "C15 the owner is stamped with the instant of its registration")
+	p, ok := d.Partitions[0]
+	vfAssert(ok, "C15 the partition exists after start-up")
+	if create && !preexisting {
+		vfAssert(p.State == PartitionPending && p.StateTimestamp == now0, "C15 a partition created on start-up is pending, stamped with now")
+	}
+	// a reconciliation right after start-up must not promote: the owner has not been registered for long enough
+	wasPending := p.State == PartitionPending
+	l.reconcileOwnedPartition(ctx, time.Unix(regAt, 0))
+	p2 := store.val.(*PartitionRingDesc).Partitions[0]
+	if wasPending {
+		vfAssert(p2.State == PartitionPending, "C15 a pending partition is promoted only after its owners have been registered for long enough")
+	}
+	l.reconcileOwnedPartition(ctx, time.Unix(regAt+11, 0))
+	p3 := store.val.(*PartitionRingDesc).Partitions[0]
+	if wasPending {
+		vfAssert(p3.State == PartitionActive, "C15 a pending partition is promoted once its owners have been registered for long enough")
+	}
+	cancel()
+	vfQuiesce()
+	vfCover("c15-startup-done")
+}
